@@ -109,11 +109,45 @@ theorem header_bytes_roundtrip (a : WArgs) (vals : List Float) (r : Row) (hr : r
     fileSlice (zygoFile zygoTable zygoWriterSets a vals) r.lo r.hi = r.payload a (lookupSrc zygoWriterSets r.name) :=
   C14L.header_bytes_roundtrip zygoTable zygoWriterSets a vals header_sizes_match header_fields_disjoint r hr hp
 
-/-- every numeric header field (any of the 150 of them, either byte order) unpacks to the value that was packed -/
+/-- a numeric header field whose packed bytes are `packNum v` (hypothesis `hraw`, discharged per field below and for all
+default-valued fields in `header_default_roundtrip`) unpacks to `v`, in the field's own byte order -/
 theorem header_value_roundtrip (a : WArgs) (vals : List Float) (r : Row) (hr : r ∈ zygoTable) (hp : r.isPad = false)
     (v : Nat) (hv : v < 256 ^ r.size) (hraw : (lookupSrc zygoWriterSets r.name).raw a r = packNum r.endian r.size v) :
     r.unpack (zygoFile zygoTable zygoWriterSets a vals) = v :=
   C14L.header_value_roundtrip zygoTable zygoWriterSets a vals header_sizes_match header_fields_disjoint r hr hp v hv hraw
+
+/-- numeric formats of the table carry no repeat count -/
+def numericCountOne (rows : List Row) : Bool :=
+  rows.all fun r => (r.code == .str || r.code == .pad || r.code == .chr) || r.count == 1
+
+/-- every numeric row of the generated table is a single value (no repeat count) -/
+theorem gen_table_counts : numericCountOne zygoTable = true := by decide +kernel
+
+/-- EVERY header field the writer leaves at its default (all rows of the generated table, either byte order) unpacks to that
+default from the written file: unsigned integers to their value, float32 fields to the float32 bit pattern of the default -/
+theorem header_default_roundtrip (a : WArgs) (vals : List Float) (r : Row) (hr : r ∈ zygoTable) (hp : r.isPad = false)
+    (hk : lookupSrc zygoWriterSets r.name = .keep) :
+    (∀ v, r.dflt = .int v → (r.code = .u16 ∨ r.code = .u32 ∨ r.code = .u8) → v < 256 ^ r.size →
+      r.unpack (zygoFile zygoTable zygoWriterSets a vals) = v) ∧
+    (∀ b, r.dflt = .flt b → r.code = .f32 →
+      r.unpack (zygoFile zygoTable zygoWriterSets a vals) = f32Bits (Float.ofBits (UInt64.ofNat b))) := by
+  have hc := gen_table_counts
+  simp only [numericCountOne, List.all_eq_true] at hc
+  have hcr := hc r hr
+  constructor
+  · intro v hd hcode hv
+    apply header_value_roundtrip a vals r hr hp v hv
+    rw [hk]
+    rcases hcode with h | h | h <;>
+      · have hcnt : r.count = 1 := by simpa [h] using hcr
+        simp only [Src.raw, hd, Row.rawDflt, h, Row.size, hcnt, Code.unit]
+  · intro b hd hcode
+    have hcnt : r.count = 1 := by simpa [hcode] using hcr
+    have hs : r.size = 4 := by simp [Row.size, hcnt, hcode, Code.unit]
+    apply header_value_roundtrip a vals r hr hp _ (by rw [hs]; exact f32Bits_lt _)
+    rw [hk]
+    simp only [Src.raw, hd, Row.rawDflt, hcode, hs]
+
 
 /-- the row of the generated table called `name` -/
 def rowOf (name : String) : Row :=
